@@ -244,6 +244,128 @@ func explainG(sp *spec.Spec, t *spec.Type, v any) []string {
 	return out
 }
 
+
+// Trigger classes (the idea of c04.go): when the input of an exchange belongs to the trigger class of a triaged
+// root cause AND that root cause can account for this class of symptom, the key names the pair
+// (rt:trigger:<class>:<symptom>); otherwise the key is the granular description. A listed finding thus
+// suppresses exactly one (root cause x symptom) pair.
+var gExplains = map[string]map[string]bool{
+	"nested-empty-collection":  {"request-rejected": true, "stream-c2s-rejected": true, "result-refused": true, "stream-s2c-refused": true},
+	"absent-collection-minlen": {"request-rejected": true, "stream-c2s-rejected": true, "result-refused": true, "stream-s2c-refused": true},
+	"both-exclusive-bounds":    {"invalid-reached-stub": true, "invalid-result-accepted": true},
+	// an attribute mapped to Metadata that declares a default, left out of a hand-built request: the generated
+	// decoder validates and forwards the zero value instead of the default
+	"metadata-default-absent": {"request-rejected": true, "default-not-applied": true},
+}
+var gTagOrder = []string{"both-exclusive-bounds", "metadata-default-absent", "absent-collection-minlen", "nested-empty-collection"}
+
+func gKey(symptom, granular string, tags []string) string {
+	for _, t := range gTagOrder {
+		if hasTag(tags, t) && gExplains[t][symptom] {
+			return "rt:trigger:" + t + ":" + symptom
+		}
+	}
+	return granular
+}
+
+// exclMaxIgnored reports whether v holds, somewhere, a number that is >= the ExclusiveMaximum of an attribute
+// that ALSO declares an ExclusiveMinimum (trigger class both-exclusive-bounds: goa emits the minimum check twice).
+func exclMaxIgnored(sp *spec.Spec, t *spec.Type, val *spec.Val, v any, depth int) bool {
+	rt, _ := sp.Resolve(t)
+	if rt == nil || v == nil || depth > 40 {
+		return false
+	}
+	var lo, hi *float64
+	for _, m := range valgen.AllVals(sp, t, val) {
+		if m.ExclMin != nil {
+			lo = m.ExclMin
+		}
+		if m.ExclMax != nil {
+			hi = m.ExclMax
+		}
+	}
+	if f, ok := vtree.Float(v); ok && lo != nil && hi != nil && f >= *hi {
+		return true
+	}
+	switch rt.Kind {
+	case spec.Object:
+		o, _ := v.(map[string]any)
+		for _, a := range rt.Attrs {
+			if exclMaxIgnored(sp, a.Type, a.Val, o[a.Name], depth+1) {
+				return true
+			}
+		}
+	case spec.Array:
+		arr, _ := v.([]any)
+		for _, e := range arr {
+			if exclMaxIgnored(sp, rt.Elem.Type, rt.Elem.Val, e, depth+1) {
+				return true
+			}
+		}
+	case spec.Map:
+		if m, ok := vtree.IsMap(v); ok {
+			for k, e := range m {
+				if exclMaxIgnored(sp, rt.Key.Type, rt.Key.Val, k, depth+1) || exclMaxIgnored(sp, rt.Elem.Type, rt.Elem.Val, e, depth+1) {
+					return true
+				}
+			}
+		}
+	}
+	return false
+}
+
+func exclTags(sp *spec.Spec, a *spec.Attr, v any) []string {
+	if a != nil && exclMaxIgnored(sp, a.Type, a.Val, v, 0) {
+		return []string{"both-exclusive-bounds"}
+	}
+	return nil
+}
+
+// gShape says where in a value a rule was broken: the value itself (a primitive or collection payload /
+// result / streamed message), a top-level attribute, or something nested deeper.
+func gShape(sp *spec.Spec, t *spec.Type, path, vkind string) string {
+	rt, _ := sp.Resolve(t)
+	body := "object"
+	if rt != nil {
+		switch {
+		case spec.IsPrim(rt.Kind):
+			body = "primitive-body"
+		case rt.Kind == spec.Array || rt.Kind == spec.Map:
+			body = "collection-body"
+		}
+	}
+	n := strings.Count(path, ".") + strings.Count(path, "[") + strings.Count(path, "{")
+	for _, pair := range []string{"][", "]{", "}[", "}{"} {
+		if strings.Contains(path, pair) {
+			return "nested-collection" // an element of a collection that is itself an element of a collection
+		}
+	}
+	if (vkind == spec.Array || vkind == spec.Map) && (strings.HasSuffix(path, "]") || strings.HasSuffix(path, "}")) {
+		return "nested-collection" // a collection that is an element of a collection
+	}
+	switch {
+	case path == "":
+		return body
+	case body == "collection-body" && n == 1:
+		return "collection-body-element"
+	case n == 1:
+		return "attribute"
+	}
+	return "nested"
+}
+
+
+// ruleShape renders the (rule, shape) part of a key. Rules broken in the payload / result / streamed message
+// ITSELF (a primitive or collection body, or an element of a collection body) or in a collection nested in a
+// collection (goa's wrapper messages, shared by name between attributes) are keyed by the shape only: whether
+// such a value is validated at all does not depend on the rule.
+func ruleShape(rule, where, shape string) string {
+	if strings.HasSuffix(shape, "-body") || shape == "collection-body-element" || shape == "nested-collection" {
+		return where + ":" + shape
+	}
+	return rule + ":" + where + ":" + shape
+}
+
 func hasTag(tags []string, t string) bool {
 	for _, x := range tags {
 		if x == t {
@@ -303,7 +425,22 @@ func nestedSuffix(path string) string {
 }
 
 // diffKeysG turns the differences between want and got into findings.
-func diffKeysG(v *GVerdict, sp *spec.Spec, t *spec.Type, want, got any, prefix string, meta map[string]string, what string) {
+// sentLacks reports whether the top-level attribute a diff path starts at is absent from the sent tree.
+func sentLacks(sent any, path string) bool {
+	o, ok := sent.(map[string]any)
+	if !ok {
+		return false
+	}
+	attr := topAttr(path)
+	for k, e := range o {
+		if spec.Norm(k) == attr && e != nil {
+			return false
+		}
+	}
+	return true
+}
+
+func diffKeysG(v *GVerdict, sp *spec.Spec, t *spec.Type, sent, want, got any, prefix string, meta map[string]string, what string) {
 	for _, d := range vtree.DiffS(want, got) {
 		loc, kind := gAttrInfo(sp, t, d.Path, meta)
 		if strings.HasSuffix(prefix, ":wide-int") {
@@ -313,6 +450,15 @@ func diffKeysG(v *GVerdict, sp *spec.Spec, t *spec.Type, want, got any, prefix s
 				k = "uint"
 			}
 			v.add(prefix+":"+k, "%s differs at %s", what, d.String())
+			continue
+		}
+		if strings.Contains(kind, "+default") && sentLacks(sent, d.Path) {
+			// the attribute was left unset: the declared default must have been supplied
+			var dt []string
+			if loc == "metadata" {
+				dt = []string{"metadata-default-absent"}
+			}
+			v.add(gKey("default-not-applied", fmt.Sprintf("rt:default-not-applied:%s%s", loc, nestedSuffix(d.Path)), dt), "%s: attribute left unset, its declared default did not arrive: %s", what, d.String())
 			continue
 		}
 		v.add(fmt.Sprintf("%s:%s:%s%s:%s:%s", prefix, loc, kind, nestedSuffix(d.Path), diffClass(d), valClass(d.Want)), "%s differs at %s", what, d.String())
@@ -509,13 +655,13 @@ func C10RT(sp *spec.Spec, ex *rt.GExchange) *GVerdict {
 		pv := pviol[0]
 		where := ruleWhere(pv, metaOf)
 		if reached {
-			v.add(fmt.Sprintf("rt:invalid-message-reached-stub:%s:%s:%s%s", pv.Rule, where, pv.Kind, nestedSuffix(pv.Path)),
+			v.add(gKey("invalid-reached-stub", "rt:invalid-message-reached-stub:"+ruleShape(pv.Rule, where, gShape(sp, m.Payload.Type, pv.Path, pv.Kind)), exclTags(sp, m.Payload, c.Sent)),
 				"payload sent through %s breaks rule %s at %s (site %v) yet the service method ran with %s", via, pv.Rule, pv.Path, c.Note["site"], vtree.Show(ex.StubIn.Payload))
 			return v
 		}
 		clientErr := ex.ClientOut != nil && (ex.ClientOut.Err != "" || (ex.ClientOut.RecvEnd != "" && ex.ClientOut.RecvEnd != "eof"))
 		if !clientErr {
-			v.add(fmt.Sprintf("rt:invalid-message-no-error:%s:%s:%s", pv.Rule, where, pv.Kind), "payload breaks rule %s at %s, the service method did not run but the caller got no error (status %q)", pv.Rule, pv.Path, status)
+			v.add(fmt.Sprintf("rt:invalid-message-no-error:%s:%s:%s", pv.Rule, where, gShape(sp, m.Payload.Type, pv.Path, pv.Kind)), "payload breaks rule %s at %s, the service method did not run but the caller got no error (status %q)", pv.Rule, pv.Path, status)
 			return v
 		}
 		if status == "" {
@@ -530,6 +676,16 @@ func C10RT(sp *spec.Spec, ex *rt.GExchange) *GVerdict {
 	if m.Payload != nil && !c.NoPay {
 		tags = explainG(sp, m.Payload.Type, c.Sent)
 	}
+	if o, ok := c.Sent.(map[string]any); ok && m.Payload != nil {
+		if prt, _ := sp.Resolve(m.Payload.Type); prt != nil && prt.Kind == spec.Object {
+			for _, l := range metaLocs {
+				if a := prt.Attr(l.Attr); a != nil && a.HasDef && o[l.Attr] == nil {
+					tags = append(tags, "metadata-default-absent")
+					break
+				}
+			}
+		}
+	}
 	if !reached {
 		if hasTag(tags, "required-empty-collection") {
 			v.Ambiguous = append(v.Ambiguous, "required-empty-collection")
@@ -542,12 +698,12 @@ func C10RT(sp *spec.Spec, ex *rt.GExchange) *GVerdict {
 		}
 		if c.Clause == "probe-request" {
 			v.clause("reject-request")
-			v.add(fmt.Sprintf("rt:valid-probe-rejected:%v:%v:%s", c.Note["rule"], c.Note["side"], strings.Join(append([]string{status}, tags...), "+")),
+			v.add(gKey("request-rejected", fmt.Sprintf("rt:valid-probe-rejected:%v:%v:%s", c.Note["rule"], c.Note["side"], status), tags),
 				"probe %v keeps the payload valid (%s, sent through %s) but the service method did not run: status %s %s", c.Note["site"], vtree.Show(c.Sent), via, status, trunc(msg, 300))
 			return v
 		}
 		v.clause("request-roundtrip")
-		v.add(fmt.Sprintf("rt:valid-payload-rejected%s:%s", wide, strings.Join(append([]string{status}, tags...), "+")),
+		v.add(gKey("request-rejected", fmt.Sprintf("rt:valid-payload-rejected%s:%s", wide, status), tags),
 			"valid payload %s sent through %s did not reach the service method: status %s %s", vtree.Show(c.Sent), via, status, trunc(msg, 300))
 		return v
 	}
@@ -562,7 +718,7 @@ func C10RT(sp *spec.Spec, ex *rt.GExchange) *GVerdict {
 	if m.Payload != nil && !c.NoPay {
 		want := rt.NormKeys(expectG(sp, m.Payload.Type, c.Sent, 0))
 		got := normUnionsG(sp, m.Payload.Type, ex.StubIn.Payload, 0)
-		diffKeysG(v, sp, m.Payload.Type, want, got, "rt:request-mismatch"+wide, metaOf, "payload received by the service method (sent through "+via+")")
+		diffKeysG(v, sp, m.Payload.Type, c.Sent, want, got, "rt:request-mismatch"+wide, metaOf, "payload received by the service method (sent through "+via+")")
 		if c.Mode == "client" {
 			placementG(v, sp, m.Payload.Type, c.Sent, metaLocs, ex, "req_md", "req", "rt:request-placement", m.StreamP != nil)
 		}
@@ -576,7 +732,7 @@ func C10RT(sp *spec.Spec, ex *rt.GExchange) *GVerdict {
 			v.clause("reject-stream-message")
 			sv := sviol[0]
 			if len(recv) > firstBad {
-				v.add(fmt.Sprintf("rt:invalid-message-reached-stub:%s:stream:%s%s", sv.Rule, sv.Kind, nestedSuffix(sv.Path)),
+				v.add(gKey("invalid-reached-stub", "rt:invalid-message-reached-stub:"+ruleShape(sv.Rule, "stream", gShape(sp, m.StreamP.Type, sv.Path, sv.Kind)), exclTags(sp, m.StreamP, c.Stream[firstBad])),
 					"streamed message #%d sent through %s breaks rule %s at %s yet the service method read it from the stream: %s", firstBad, via, sv.Rule, sv.Path, vtree.Show(recv[firstBad]))
 			} else {
 				v.seen("reject_codes", "stream:"+status+":"+sv.Rule)
@@ -595,7 +751,7 @@ func C10RT(sp *spec.Spec, ex *rt.GExchange) *GVerdict {
 			if c.Clause == "probe-stream" {
 				key = fmt.Sprintf("rt:valid-probe-rejected:%v:%v:stream", c.Note["rule"], c.Note["side"])
 			}
-			v.add(key+tagSuffix(t), "every streamed message is valid but the service method's Recv ended with %q after %d of %d messages", ex.StubIn.RecvEnd, len(recv), len(c.Stream))
+			v.add(gKey("stream-c2s-rejected", key, t), "every streamed message is valid but the service method's Recv ended with %q after %d of %d messages", ex.StubIn.RecvEnd, len(recv), len(c.Stream))
 			return v
 		}
 		if len(recv) != len(c.Stream) {
@@ -615,7 +771,7 @@ func C10RT(sp *spec.Spec, ex *rt.GExchange) *GVerdict {
 		} else {
 			for i := range recv {
 				want := rt.NormKeys(expectG(sp, m.StreamP.Type, c.Stream[i], 0))
-				diffKeysG(v, sp, m.StreamP.Type, want, normUnionsG(sp, m.StreamP.Type, recv[i], 0), "rt:stream-c2s:"+kind+":mismatch", nil, fmt.Sprintf("streamed message #%d read by the service method", i))
+				diffKeysG(v, sp, m.StreamP.Type, c.Stream[i], want, normUnionsG(sp, m.StreamP.Type, recv[i], 0), "rt:stream-c2s:"+kind+":mismatch", nil, fmt.Sprintf("streamed message #%d read by the service method", i))
 			}
 		}
 	}
@@ -671,7 +827,7 @@ func C10RT(sp *spec.Spec, ex *rt.GExchange) *GVerdict {
 			v.clause("reject-result")
 			if len(co.Recv) > bad {
 				rv := rviol[0]
-				v.add(fmt.Sprintf("rt:invalid-result-accepted-by-client:%s:stream:%s%s", rv.Rule, rv.Kind, nestedSuffix(rv.Path)),
+				v.add(gKey("invalid-result-accepted", "rt:invalid-result-accepted-by-client:"+ruleShape(rv.Rule, "stream", gShape(sp, m.Result.Type, rv.Path, rv.Kind)), exclTags(sp, m.Result, oc.Stream[bad])),
 					"streamed result #%d breaks rule %s at %s yet the generated client stream returned it: %s", bad, rv.Rule, rv.Path, vtree.Show(co.Recv[bad]))
 			}
 			return v
@@ -692,7 +848,7 @@ func C10RT(sp *spec.Spec, ex *rt.GExchange) *GVerdict {
 			if c.Clause == "probe-result" {
 				key = fmt.Sprintf("rt:valid-result-probe-refused:%v:%v:stream", c.Note["rule"], c.Note["side"])
 			}
-			v.add(key+tagSuffix(t), "every streamed result is valid but the client's Recv ended with %q after %d of %d messages (stub sent %d, send error %q)", co.RecvEnd, len(co.Recv), len(oc.Stream), ex.StubIn.Sent, ex.StubIn.SendErr)
+			v.add(gKey("stream-s2c-refused", key, t), "every streamed result is valid but the client's Recv ended with %q after %d of %d messages (stub sent %d, send error %q)", co.RecvEnd, len(co.Recv), len(oc.Stream), ex.StubIn.Sent, ex.StubIn.SendErr)
 			return v
 		}
 		if len(co.Recv) != len(oc.Stream) {
@@ -708,7 +864,7 @@ func C10RT(sp *spec.Spec, ex *rt.GExchange) *GVerdict {
 		}
 		for i := range co.Recv {
 			want := rt.NormKeys(expectG(sp, m.Result.Type, oc.Stream[i], 0))
-			diffKeysG(v, sp, m.Result.Type, want, normUnionsG(sp, m.Result.Type, co.Recv[i], 0), "rt:stream-s2c:"+kind+":mismatch", nil, fmt.Sprintf("streamed result #%d read by the client", i))
+			diffKeysG(v, sp, m.Result.Type, oc.Stream[i], want, normUnionsG(sp, m.Result.Type, co.Recv[i], 0), "rt:stream-s2c:"+kind+":mismatch", nil, fmt.Sprintf("streamed result #%d read by the client", i))
 		}
 		return v
 	}
@@ -727,7 +883,7 @@ func C10RT(sp *spec.Spec, ex *rt.GExchange) *GVerdict {
 		v.clause("reject-result")
 		if !failed {
 			rv := rviol[0]
-			v.add(fmt.Sprintf("rt:invalid-result-accepted-by-client:%s:%s:%s%s", rv.Rule, ruleWhere(rv, respOf), rv.Kind, nestedSuffix(rv.Path)),
+			v.add(gKey("invalid-result-accepted", "rt:invalid-result-accepted-by-client:"+ruleShape(rv.Rule, ruleWhere(rv, respOf), gShape(sp, m.Result.Type, rv.Path, rv.Kind)), exclTags(sp, m.Result, oc.Result)),
 				"result breaks rule %s at %s yet the generated client returned it: %s", rv.Rule, rv.Path, vtree.Show(co.Result))
 		}
 		return v
@@ -739,15 +895,15 @@ func C10RT(sp *spec.Spec, ex *rt.GExchange) *GVerdict {
 			v.Ambiguous = append(v.Ambiguous, "required-empty-collection")
 			return v
 		}
-		key := "rt:valid-result-refused:" + strings.Join(append([]string{status}, rtags...), "+")
+		key := "rt:valid-result-refused:" + status
 		if c.Clause == "probe-result" {
-			key = fmt.Sprintf("rt:valid-result-probe-refused:%v:%v:%s", c.Note["rule"], c.Note["side"], strings.Join(append([]string{status}, rtags...), "+"))
+			key = fmt.Sprintf("rt:valid-result-probe-refused:%v:%v:%s", c.Note["rule"], c.Note["side"], status)
 		}
-		v.add(key, "valid result %s was not returned by the generated client: %s%s (status %s)", vtree.Show(oc.Result), co.Err, co.RecvEnd, status)
+		v.add(gKey("result-refused", key, rtags), "valid result %s was not returned by the generated client: %s%s (status %s)", vtree.Show(oc.Result), co.Err, co.RecvEnd, status)
 		return v
 	}
 	want := rt.NormKeys(expectG(sp, m.Result.Type, oc.Result, 0))
-	diffKeysG(v, sp, m.Result.Type, want, normUnionsG(sp, m.Result.Type, co.Result, 0), "rt:response-mismatch", respOf, "result returned by the generated client")
+	diffKeysG(v, sp, m.Result.Type, oc.Result, want, normUnionsG(sp, m.Result.Type, co.Result, 0), "rt:response-mismatch", respOf, "result returned by the generated client")
 	placementG(v, sp, m.Result.Type, oc.Result, hdr, ex, "header", "resp", "rt:response-placement", false)
 	placementG(v, sp, m.Result.Type, oc.Result, trl, ex, "trailer", "resp", "rt:response-placement", false)
 	return v
